@@ -104,6 +104,33 @@ def _twin(n):
 TwinA, TwinB = _twin(1), _twin(2)
 
 
+class HRe:
+    """registered directly, then again by qualified name (the by-name entry is pending at start)"""
+
+    def __init__(self, *a):
+        self.a = a
+
+    def __repr__(self):
+        return '%s!' % type(self).__name__
+
+
+class HReSub(HRe):
+    pass
+
+
+class Reentrant:
+    def __init__(self, inner):
+        self.inner = inner
+
+
+class OldStyle:
+    def __init__(self, x):
+        self.x = x
+
+    def __repr__(self):
+        return 'OldStyle(%s)' % P.pformat(self.x, width=200)
+
+
 class HMut:
     """registered printer that reads (only reads) every container it is given"""
 
@@ -212,6 +239,19 @@ def build_corpus():
     add('trailing', 'comment', trailing_comment([1, 2], 'more'))
     add('comment_long', 'comment', {'a': comment('v' * 90, 'cm'), 'b': 1})
     add('comment_dictkey', 'comment', {comment('k', 'key comment'): 1})
+    long_note = 'the quick brown fox keeps running through the forest until it reaches the river bank at dawn'
+    add('comment_wrapping', 'comment', {'k': comment('abcde' * 20, long_note)})
+    add('comment_wrapping_w40', 'comment', [comment([1, 2, 3], long_note), comment('x', 'short')], dict(width=40))
+    add('trailing_wrapping', 'comment', trailing_comment({'a': 1, 'b': [2, 3]}, long_note), dict(width=30))
+    add('comment_top_wrapping', 'comment', comment({'a': 'v' * 60}, long_note + ' ' + long_note), dict(width=50))
+    add('comment_value_long', 'comment', {'key': comment({'inner': list(range(12))}, long_note)}, dict(width=35))
+    add('truncated_then_comment', 'comment', [list(range(30)), comment(1, long_note)], dict(max_seq_len=3, width=40))
+    add('h_re_sub', 'harness', HReSub(1))
+    add('h_re', 'harness', HRe(2))
+    add('h_re_both', 'harness', [HReSub(), HRe()])
+    add('reentrant', 'reentrant', [Reentrant([1, 2, 3]), {'k': Reentrant({'b': 1, 'a': [2, 3]})}])
+    add('reentrant_lazy', 'reentrant', Reentrant(uuid.UUID(int=9)))
+    add('oldstyle', 'reentrant', {'old': OldStyle([1, 2, {'z': 1, 'a': 2}]), 'more': [OldStyle(Col.R)] * 2})
     add('cyclic', 'cycle', cyc, idfree=False)
     add('cyclic_depth', 'cycle', [cyc, cyc], dict(depth=3), idfree=False)
     add('sorted', 'sort', {'b': 1, 'a': 2}, dict(sort_dict_keys=True))
@@ -295,6 +335,22 @@ def register_harness():
     @register_pretty(TwinB)
     def ptwin_b(v, ctx):
         return pretty_call(ctx, 'TwinB', x=v.x)
+
+    @register_pretty(HRe)
+    def pre_old(v, ctx):
+        return pretty_call(ctx, type(v), *v.a, printer='direct')
+
+    @register_pretty(HRe.__module__ + '.' + HRe.__qualname__)
+    def pre_new(v, ctx):
+        return pretty_call(ctx, type(v), *v.a, printer='by-name')
+
+    from prettyprinter.doc import contextual
+
+    @register_pretty(Reentrant)
+    def preent(v, ctx):
+        def evaluator(indent, column, page_width, ribbon_width):
+            return 'Reentrant<%s>' % P.pformat(v.inner, width=200).replace('\n', ' ')
+        return contextual(evaluator)
 
     @register_pretty(HMut)
     def pmut(v, ctx):
